@@ -4,6 +4,11 @@ Stream `nodes`: generated statements of every kind (all dialects) and the reposi
 predicts node count, node classes and "immutable, all run-time checks pass"; the implementation performs the run-time checks on EVERY
 node at any depth (attribute assignment raises, only immutable field values, hash() succeeds, an independently re-parsed copy is ==
 and hashes equal, a copy with one field changed is !=).
+Stream `pools`: a text and its one-token variants (letter case / rename of every word, other literal, keyword, operator and operand swaps) through
+the `POOL` command: the model predicts the number of nodes and of distinct structures; the implementation checks for every two nodes at
+corresponding positions and for all pairs within a class that `==` ⇔ same class and same canonical dump, `!=` is its negation, `==` ⇒ same
+hash, and that a set / dict of all nodes keeps exactly the distinct structures.  Every node class is also checked to have no hand-written
+special method (`IMM`, and the `C11.schema_frozen` obligation on the regenerated class table).
 Stream `helpers`: generated CREATE TABLE / SELECT statements with random sequences of the five helpers through the `HELP` command:
 model and implementation must agree on every result; oracle: a helper returns a node of the same class, leaves the receiver's dump
 unchanged, and a hashable receiver gives a hashable result.
@@ -19,6 +24,124 @@ WITHS = ["WITH w AS (SELECT 1)", "WITH w AS (SELECT a FROM t), v AS (SELECT b FR
 
 def hx(s):
     return s.encode("utf-8").hex()
+
+
+# ---------------------------------------------------------------------------------------------------------------------
+# pools of near-identical trees: one text and its one-token variants
+# ---------------------------------------------------------------------------------------------------------------------
+
+POOL_BASES = [
+    ("MYSQL", "SELECT count(a), s.f(b), CAST(c AS CHAR(3)), CAST(d AS SIGNED INT), EXTRACT(year FROM e), IF(a, 1, 2) FROM t"),
+    ("MYSQL", "SELECT t.a AS x, b y, u.* FROM s.t AS u JOIN v w ON t.a = w.a LEFT JOIN z USING (k)"),
+    ("MYSQL", "SELECT DISTINCT 1, 'a', TRUE, NULL, x'1F', 2.5 FROM t LIMIT 5, 10"),
+    ("MYSQL", "SELECT ROW_NUMBER() OVER (PARTITION BY a ORDER BY b DESC NULLS LAST ROWS BETWEEN 1 PRECEDING AND CURRENT ROW), SUM(x) OVER (ORDER BY y ROWS BETWEEN UNBOUNDED PRECEDING AND 2 FOLLOWING) FROM t"),
+    ("MYSQL", "SELECT CASE a WHEN 1 THEN 'x' WHEN 2 THEN 'y' ELSE 'z' END, CASE WHEN b > 1 THEN c ELSE d END FROM t"),
+    ("MYSQL", "SELECT a FROM t WHERE a IN (1, 2) AND b NOT IN (SELECT k FROM u) OR c LIKE 'x%' XOR d RLIKE 'r' AND e REGEXP 'g' AND f IS NULL AND g IS NOT NULL AND h BETWEEN 1 AND 9 AND i NOT BETWEEN 2 AND 3 AND EXISTS (SELECT 1 FROM w)"),
+    ("MYSQL", "SELECT a + b, c - d, e * f, g / h, i % j, k DIV l, m & n, o | p, q ^ r, s << 2, t >> 3, - u, ~ v, ! w FROM x WHERE a = 1 AND b != 2 AND c < 3 AND d <= 4 AND e > 5 AND f >= 6 AND g <=> 7 AND NOT h"),
+    ("MYSQL", "SELECT a, COUNT(DISTINCT b) FROM t GROUP BY a, c WITH ROLLUP HAVING COUNT(b) > 1 ORDER BY a ASC, c DESC LIMIT 3"),
+    ("HIVE", "SELECT a FROM t GROUP BY a, b GROUPING SETS ((a, b), (a)) ORDER BY a NULLS FIRST"),
+    ("MYSQL", "SELECT a FROM t INNER JOIN u ON t.a = u.a RIGHT OUTER JOIN v ON u.b = v.b CROSS JOIN w UNION ALL SELECT b FROM x UNION SELECT c FROM y EXCEPT SELECT d FROM z"),
+    ("MYSQL", "WITH w1 AS (SELECT a FROM t), w2 AS (SELECT b FROM w1) SELECT q.a FROM (SELECT a FROM w2) q"),
+    ("HIVE", "SELECT a, x, arr[1] FROM t LATERAL VIEW OUTER explode(b) v AS x, y SORT BY a DISTRIBUTE BY b"),
+    ("HIVE", "SELECT a FROM t CLUSTER BY a, b"),
+    ("MYSQL", "INSERT INTO s.t (a, b) VALUES (1, 'x'), (2, NULL)"),
+    ("HIVE", "INSERT OVERWRITE TABLE s.t PARTITION (dt = '1', hr) SELECT a, b FROM u"),
+    ("MYSQL", "INSERT IGNORE INTO t SELECT a FROM u"),
+    ("MYSQL", "UPDATE s.t SET a = 1, b = c + 2 WHERE d = 3 ORDER BY e LIMIT 4"),
+    ("MYSQL", "DELETE FROM s.t WHERE a = 1 ORDER BY b DESC LIMIT 2, 5"),
+    ("MYSQL", "CREATE TABLE IF NOT EXISTS s.t (id bigint(20) unsigned zerofill NOT NULL AUTO_INCREMENT COMMENT 'pk', n varchar(32) CHARACTER SET utf8 COLLATE utf8_bin NULL DEFAULT 'x' COMMENT 'name', "
+              "g int GENERATED ALWAYS AS (id + 1) VIRTUAL, ts timestamp DEFAULT CURRENT_TIMESTAMP ON UPDATE CURRENT_TIMESTAMP, d decimal(10,2))"),
+    ("MYSQL", "CREATE TABLE t (a int, PRIMARY KEY (a), UNIQUE KEY uk (a, b(10)) USING BTREE COMMENT 'u' KEY_BLOCK_SIZE = 8, KEY k1 (c), FULLTEXT KEY ft (d), "
+              "CONSTRAINT fk1 FOREIGN KEY (a, b) REFERENCES p (x, y) ON DELETE CASCADE ON UPDATE RESTRICT)"),
+    ("MYSQL", "CREATE TABLE t (a int) ENGINE=InnoDB AUTO_INCREMENT=10 DEFAULT CHARSET=utf8mb4 COLLATE=utf8_bin ROW_FORMAT=DYNAMIC STATS_PERSISTENT=1 COMMENT='tc'"),
+    ("HIVE", "CREATE TABLE t (a int COMMENT 'c') COMMENT 'tc' PARTITIONED BY (dt string COMMENT 'p') ROW FORMAT SERDE 'org.x.S' STORED AS INPUTFORMAT 'in.f' OUTPUTFORMAT 'out.f' LOCATION 'hdfs://x' TBLPROPERTIES ('k1'='v1', 'k2'='v2')"),
+    ("HIVE", "CREATE TABLE t (a int) ROW FORMAT DELIMITED FIELDS TERMINATED BY ',' STORED AS TEXTFILE"),
+    ("MYSQL", "CREATE TABLE s.t AS SELECT a FROM u"),
+    ("MYSQL", "ALTER TABLE s.t ADD c int COMMENT 'x'"),
+    ("MYSQL", "ALTER TABLE t DROP COLUMN a, RENAME COLUMN b TO c, ADD KEY k (d), CHANGE `old` e int"),
+    ("HIVE", "ALTER TABLE t ADD IF NOT EXISTS PARTITION (dt = '1')"),
+    ("HIVE", "ALTER TABLE t DROP IF EXISTS PARTITION (dt = '1', hr = 2)"),
+    ("MYSQL", "ALTER TABLE t MODIFY a varchar(20) NOT NULL"),
+    ("MYSQL", "DROP TABLE IF EXISTS s.t; TRUNCATE TABLE s.u; USE db1; SET a.b = c; SHOW TABLES"),
+    ("HIVE", "MSCK REPAIR TABLE s.t; ANALYZE TABLE s.u PARTITION (dt = '1') COMPUTE STATISTICS FOR COLUMNS CACHE METADATA NOSCAN; SET hive.exec.parallel = true"),
+    ("MYSQL", "SHOW COLUMNS FROM s.t WHERE a = 1"),
+]
+SWAPS = [("ASC", "DESC"), ("DESC", "ASC"), ("FIRST", "LAST"), ("LAST", "FIRST"), ("PRECEDING", "FOLLOWING"), ("FOLLOWING", "PRECEDING"), ("AND", "OR"), ("OR", "AND"), ("XOR", "OR"),
+         ("LEFT", "RIGHT"), ("RIGHT", "LEFT"), ("INNER", "LEFT"), ("CROSS", "INNER"), ("OUTER", ""), ("ALL", ""), ("DISTINCT", ""), ("NOT", ""), ("IGNORE", ""), ("UNION", "EXCEPT"),
+         ("EXCEPT", "INTERSECT"), ("ROLLUP", "CUBE"), ("CUBE", "ROLLUP"), ("VIRTUAL", "STORED"), ("STORED", "VIRTUAL"), ("SIGNED", ""), ("UNSIGNED", ""), ("ZEROFILL", ""),
+         ("AUTO_INCREMENT", ""), ("NULL", "NOT NULL"), ("LIKE", "RLIKE"), ("RLIKE", "REGEXP"), ("REGEXP", "LIKE"), ("INTO", "OVERWRITE"), ("OVERWRITE", "INTO"), ("UNBOUNDED", "3"),
+         ("TEXTFILE", "INPUTFORMAT 'x'"), ("NOSCAN", ""), ("DIV", "MOD"), ("CHAR", "VARCHAR"), ("INT", "DECIMAL"), ("year", "month"), ("CASCADE", "RESTRICT"), ("RESTRICT", "CASCADE"),
+         ("BTREE", "HASH"), ("IF EXISTS", ""), ("IF NOT EXISTS", ""), ("FOR COLUMNS", ""), ("CACHE METADATA", ""), ("WITH ROLLUP", ""), ("IS NOT", "IS"), ("IS", "IS NOT"), ("IN", "NOT IN")]
+OPS = [(" = ", " <> "), (" != ", " = "), (" < ", " <= "), (" <= ", " < "), (" > ", " >= "), (" >= ", " > "), (" <=> ", " = "), (" + ", " - "), (" - ", " + "), (" * ", " / "),
+       (" / ", " * "), (" % ", " * "), (" & ", " | "), (" | ", " & "), (" ^ ", " & "), (" << ", " >> "), (" >> ", " << "), ("- ", "~ "), ("~ ", "- "), ("! ", "- ")]
+
+
+def single_edits(text):
+    """every one-token variant of `text` outside quoted strings / quoted names: letter case, rename, other literal, keyword / operator swap, operand swap"""
+    import re
+    from props import c09
+    out = []
+
+    def put(a, b, new):
+        v = text[:a] + new + text[b:]
+        if v != text:
+            out.append(v)
+    for a0, b0 in c09.code_spans(text):
+        seg = text[a0:b0]
+        for m in re.finditer(r"[A-Za-z_][A-Za-z0-9_]*", seg):
+            w, a, b = m.group(0), a0 + m.start(), a0 + m.end()
+            put(a, b, w.upper()); put(a, b, w.lower()); put(a, b, w.capitalize())
+            put(a, b, w + "_2")
+        for m in re.finditer(r"(?<![A-Za-z_0-9.'])\d+(?![A-Za-z_'.])", seg):
+            put(a0 + m.start(), a0 + m.end(), str(int(m.group(0)) + 1))
+        for old, new in SWAPS:
+            for m in re.finditer(r"\b" + old.replace(" ", r"\s+") + r"\b ?", seg):
+                put(a0 + m.start(), a0 + m.end(), new + (" " if new else ""))
+        for old, new in OPS:
+            i = seg.find(old)
+            while i >= 0:
+                put(a0 + i, a0 + i + len(old), new)
+                i = seg.find(old, i + 1)
+        for m in re.finditer(r"\b(\w+) (\+|\*|=|AND|OR) (\w+)\b", seg):
+            put(a0 + m.start(), a0 + m.end(), "%s %s %s" % (m.group(3), m.group(2), m.group(1)))
+    for k, piece, a, b in quoted_pieces(text):
+        put(a, b, piece[0] + piece[1:-1] + "2" + piece[-1])
+        if any(ch.isalpha() for ch in piece):
+            put(a, b, piece.swapcase())
+    seen, res = set(), []
+    for v in out:
+        if v not in seen:
+            seen.add(v); res.append(v)
+    return res
+
+
+def quoted_pieces(text):
+    from props import c09
+    pos, out = 0, []
+    for is_code, piece in c09.segments(text):
+        if not is_code and len(piece) >= 2:
+            out.append((piece[0], piece, pos, pos + len(piece)))
+        pos += len(piece)
+    return out
+
+
+def pools(r, n_random, per_pool=10):
+    """[(dialect, [texts], kind)]: every one-token variant of the systematic bases, and random subsets of the variants of generated statements"""
+    out = []
+    for d, base in POOL_BASES:
+        vs = single_edits(base)
+        for i in range(0, len(vs), per_pool):
+            out.append((d, [base] + vs[i:i + per_pool] + [base], "systematic"))
+    while n_random > 0:
+        d = r.choice(pfam.MAIN_DIALECTS)
+        base = sqlgen.Gen(r, d, wild=False).stmt()
+        vs = single_edits(base)
+        if not vs:
+            continue
+        vs = r.shuffle(vs)[:per_pool]
+        out.append((d, [base] + vs + [base], "random"))
+        n_random -= 1
+    return out
 
 
 def helper_calls(r, for_table):
@@ -62,10 +185,13 @@ def run(ctx):
     n_help = 1200 if ctx.quick else 25000
     ctx.cov["rule"] = ("nodes: %d generated statements of every kind (sqlgen.Gen.stmt over 7 dialects, 15%% from the wild generator) + the repository's SQL corpus; model and "
                        "implementation agree on node count and node classes; the implementation checks on every node at every depth: setattr raises, field values are "
-                       "None/bool/int/str/Enum/tuple/node, no __dict__, hash() succeeds, re-parsed copy == and same hash, one-field variant !=.  helpers: %d generated CREATE "
+                       "None/bool/int/str/Enum/tuple/node, no __dict__, no hand-written special method, hash() succeeds, re-parsed copy == and same hash, one-field variant !=.  "
+                       "pools: every one-token variant of %d systematic statements (one per statement family / clause family) and random subsets of the variants of generated "
+                       "statements, 10 variants per pool: for all pairs of nodes at corresponding positions and all pairs within a class == ⇔ same dump, == ⇒ same hash, set size = "
+                       "distinct dumps.  helpers: %d generated CREATE "
                        "TABLE / SELECT statements × random sequences (1–5 calls) of set_with_clauses, set_table_name, change_type(HASHMAP_MYSQL_TO_HIVE), append_column, "
                        "append_partition_by_column; model and implementation agree on every call's outcome and on the final tree; oracle per call: same class, receiver's dump "
-                       "unchanged, hashable receiver ⇒ hashable result.  distinct_nontrivial = distinct accepted answers" % (n_nodes, n_help))
+                       "unchanged, hashable receiver ⇒ hashable result.  distinct_nontrivial = distinct accepted answers" % (n_nodes, len(POOL_BASES), n_help))
     ctx.cov["validated_only"] = ["CPython's frozen-dataclass / tuple / enum semantics (setattr raises, structural == and hash): checked on every node of every generated tree, not modelled",
                                  "agreement of the helper models (MsqModel/Helpers.lean) with node.py (sampled)"]
     # ---- nodes
@@ -86,6 +212,46 @@ def run(ctx):
             pfam.report(ctx, "node:" + what.split(":")[0], {"kind": "input", "command": "IMM", "dialect": d, "input": t, "observed": a[:400], "detail": what,
                                                           "oracle": "c11: every node rejects assignment, holds immutable values only, hashes, equals its re-parsed copy and differs from a changed copy",
                                                           "how_found": "stream nodes"})
+    # ---- pools: cross-tree structural equality
+    pls = pools(r.fork("pools"), 350 if ctx.quick else 12000)
+    for f in ctx.findings:
+        w = f.get("witness", {})
+        if "pool" in w:
+            pls.insert(0, (w["dialect"], list(w["pool"]), "witness"))
+    preqs = ["POOL %s %s" % (d, " ".join(E.enhex(t) for t in ts)) for d, ts, _ in pls]
+    res, _ = ctx.corr(preqs, stream="pools")
+    for (d, ts, kind), (_, a, _) in zip(pls, res):
+        if not a.startswith("OK "):
+            continue
+        f = dict(x.split("=", 1) for x in a.split(" ")[1:])
+        ctx.count("pool:" + kind + ":" + ("ok" if f["checks"] == "ok" else f["checks"].split(":")[0]))
+        ctx.count("pool-texts:accepted", f["t"].split(",").count("P")); ctx.count("pool-texts:rejected", len(ts) - f["t"].split(",").count("P"))
+        if f["checks"] != "ok":
+            # shrink the pool to two texts
+            small, obs = ts, a
+            pairs = [[x, y] for i, x in enumerate(ts) for y in ts[i + 1:] if x != y][:120]
+            for pr, a2 in zip(pairs, E.run_impl(["POOL %s %s" % (d, " ".join(E.enhex(t) for t in pr)) for pr in pairs])):
+                if a2.startswith("OK ") and "checks=ok" not in a2 and a2.split("checks=")[1].split(":")[0] == f["checks"].split(":")[0]:
+                    small, obs = pr, a2
+                    break
+            pfam.report(ctx, "pool:" + ":".join(f["checks"].split(":")[:2]), {"kind": "input", "command": "POOL", "dialect": d, "input": small[0], "pool": small, "observed": obs[:300],
+                                                                              "detail": obs.split("checks=")[1],
+                                                                              "oracle": "c11: two nodes are == exactly when they have the same class and the same canonical dump, equal nodes hash equal, a set keeps exactly the distinct structures",
+                                                                              "how_found": "stream pools (%s), shrunk to a pair of texts" % kind})
+    cov_reqs = ["PAIRS %s %s" % (d, " ".join(E.enhex(t) for t in ts)) for d, ts, kind in pls if kind == "systematic"] + \
+               ["PAIRS %s %s" % (d, " ".join(E.enhex(t) for t in ts)) for d, ts, kind in pls if kind == "random"][:150]
+    leaves = set()
+    for a in E.run_impl(cov_reqs):
+        if a.startswith("OK ") and "leaves=" in a:
+            leaves |= set(a.split("leaves=")[1].split(",")) - {"", "?"}
+    ctx.cov["leaf_fields_witnessed_by_one_leaf_pairs"] = sorted(leaves)
+    ctx.cov["distribution"]["leaf-fields-witnessed"] = len(leaves)
+    try:
+        allf = {c["name"] + "." + f_["name"] for c in E.gen_json()["static"]["schema"] for f_ in c["fields"]
+                if not c["abstract"] and not any(k in f_["type"] for k in ("AST", "Alias", "Tuple", "Union[")) or (not c["abstract"] and "str" in f_["type"])}
+        ctx.cov["leaf_fields_not_witnessed"] = sorted(x for x in allf - leaves if x.split(".")[0] in classes)
+    except Exception:
+        pass
     ctx.cov["distribution"]["node-classes-seen"] = len(classes)
     ctx.cov["node_classes_seen"] = sorted(classes)
     # ---- helpers
@@ -130,6 +296,10 @@ def replay(payload):
         j = judge_help(a, payload["calls"])
         print("statement:", repr(payload["input"])); print("calls:", payload["calls"]); print("implementation:", a[:500]); print("verdict:", j)
         return 1 if j else 0
+    if payload.get("command") == "POOL":
+        a = E.run_impl(["POOL %s %s" % (payload["dialect"], " ".join(E.enhex(t) for t in payload["pool"]))])[0]
+        print("pool:", payload["pool"]); print("implementation:", a[:400])
+        return 1 if a.startswith("OK ") and "checks=ok" not in a else 0
     a = E.run_impl(["IMM %s %s" % (payload["dialect"], E.enhex(payload["input"]))])[0]
     print("statement:", repr(payload["input"])); print("implementation:", a[:400])
     return 1 if a.startswith("OK ") and ("checks=ok" not in a or "imm=true" not in a) else 0
